@@ -1,2 +1,17 @@
-import PikaVerif
-def main : IO Unit := IO.println "driver"
+import Driver.Util
+import Driver.SemDrv
+/-! `driver <model>`: reads harness output (cases) on stdin, prints one verdict line per case. -/
+open Driver
+
+def dispatch (model : String) (c : Case) : String :=
+  match model with
+  | "sem" => SemDrv.runCase c
+  | _ => s!"case {c.id} reject 0 unknown-model-{model}"
+
+def main (args : List String) : IO UInt32 := do
+  let model := args.headD ""
+  let stdin ← IO.getStdin
+  let cases ← readCases stdin #[] none
+  for c in cases do
+    IO.println (dispatch model c)
+  return 0
